@@ -341,13 +341,14 @@ func (p *parser) parsePrimary() (Expr, error) {
 	switch t.Kind {
 	case TNumber:
 		p.next()
-		return &NumberLit{Text: t.Text, Pos: t.Pos}, nil
-	case TString:
+		nl := &NumberLit{Text: t.Text, Pos: t.Pos}
+		if v, err := parseInteger(t.Text, "numeric"); err == nil {
+			nl.val = v
+		}
+		return nl, nil
+	case TString, TDollarString:
 		p.next()
-		return &StringLit{Val: t.Text, Pos: t.Pos}, nil
-	case TDollarString:
-		p.next()
-		return &StringLit{Val: t.Text, Pos: t.Pos}, nil
+		return &StringLit{Val: t.Text, Pos: t.Pos, boxed: t.Text}, nil
 	case TParam:
 		p.next()
 		n, _ := strconv.Atoi(t.Text)
@@ -499,7 +500,7 @@ func (p *parser) parsePrimary() (Expr, error) {
 					return nil, err
 				}
 				s := p.next()
-				return &CastExpr{X: &StringLit{Val: s.Text, Pos: s.Pos}, Type: ty, Pos: t.Pos}, nil
+				return &CastExpr{X: &StringLit{Val: s.Text, Pos: s.Pos, boxed: s.Text}, Type: ty, Pos: t.Pos}, nil
 			}
 		}
 		if reserved[t.Text] {
